@@ -99,6 +99,9 @@ func seedOf() int {
 }
 
 func (r *Report) finish() int {
+	if r.E != nil && os.Getenv("GOVC_WRITE_HINTS") != "" && os.Getenv("GOVC_REPO") == "" {
+		r.E.writeHints()
+	}
 	id := r.Cfg.ID
 	known := loadKnown()
 	knownBy := map[string]KnownFinding{}
@@ -291,6 +294,21 @@ func (r *Report) finish() int {
 		}
 		sort.Strings(undecided)
 	}
+	if r.E != nil {
+		var sc []string
+		for k, why := range r.E.staleClauses {
+			if i := strings.Index(k, "#"); i > 0 {
+				if _, und := r.E.undecided[k[:i]]; und {
+					continue
+				}
+			}
+			sc = append(sc, k+": "+why)
+		}
+		sort.Strings(sc)
+		for _, u := range sc {
+			undecided = append(undecided, u+" (this clause was not checked; the function's other obligations are reported as usual)")
+		}
+	}
 	cov["undecided_functions"] = undecided
 	for _, u := range undecided {
 		lines = append(lines, fmt.Sprintf("UNDECIDED: property=%s %s — the contract no longer attaches here; nothing is claimed about it on this tree (not counted)", id, u))
@@ -450,6 +468,10 @@ func (r *Report) selfTest(id string) []map[string]interface{} {
 	sem := make(chan struct{}, 3)
 	for si, patch := range seeds {
 		res := map[string]interface{}{"seed": filepath.Base(filepath.Dir(patch))}
+		if b, err := os.ReadFile(filepath.Join(filepath.Dir(patch), "checks")); err == nil && len(strings.Fields(string(b))) > 1 {
+			// the change is tried against every check named there; it need not fall under this one
+			res["tried_against_checks"] = strings.Fields(string(b))
+		}
 		results[si] = res
 		dir, err := os.MkdirTemp("", "govc-selftest-")
 		if err != nil {
